@@ -12,7 +12,7 @@ import json
 import os
 import re
 
-from .. import core, emit, parser_rules as pr, transforms, vt
+from .. import core, emit, parser_rules as pr, transforms, vt, inline
 
 TAG = '@RustEnum::Algebraic.tag_key'
 CONTENT = '@RustEnum::Algebraic.content_key'
@@ -93,8 +93,8 @@ def v1(ctx, rep, T):
     # tag / content
     pe = ctx.fn('parse_enum', file='parser.rs')
     for helper, want in (('get_tag_key', 'tag'), ('get_content_key', 'content')):
-        callee, names, consts = pr.attr_lookup_spec(ctx, helper)
-        rep.check(names == [want] and 'SERDE' in consts, 'V1', f'{helper}:name', f'{want} under serde', f'{helper} looks for {names} under {consts}', {'file': pe['file'], 'line': ctx.fn(helper, file="parser.rs")['line']})
+        closed, open_ = pr.lookup_closed(ctx, helper)
+        rep.check(closed == {('SERDE', want, 'NameValue')} and not open_, 'V1', f'{helper}:name', f'{want} = ".." under serde', f'{helper} looks for {sorted(closed)} {sorted(map(str, open_))} — expected the name-value argument `{want}` of #[serde(..)] only', {'file': pe['file'], 'line': ctx.fn(helper, file="parser.rs")['line']})
     alg = [c for c in pe['structs'] if c['path'] == 'RustEnum::Algebraic']
     rep.floor('V1', 'RustEnum::Algebraic construction', len(alg), 1)
     for fld, helper in (('tag_key', 'get_tag_key'), ('content_key', 'get_content_key')):
@@ -140,7 +140,7 @@ def printers(ctx, rep, T):
     cache = {}
     n_occ = 0
     for be, (struct, file) in emit.BACKENDS.items():
-        fns = [g for g in ctx.astq['functions'] if g['file'].endswith(file)]
+        fns = inline.file_views(ctx, file)
         var_str, var_str_bad = [], []
         key_sites = {'tag': [], 'content': []}
         for g in fns:
